@@ -170,11 +170,15 @@ def build(inp):
     for ch in inp["channels"]:
         dd = [dims[q] for q in ch["targets"]]
         m = rand_herm(ch["seed"], int(np.prod(dd)))
-        q = qutip.Qobj(m, dims=[dd, dd])
-        ops.append(q)
-        if ch.get("ctrl", True):       # False: the channel exists only as a Pulse object given to add_pulse
-            proc.add_control(q, targets=list(ch["targets"]), label=ch["label"])
+        ops.append(qutip.Qobj(m, dims=[dd, dd]))
         mats["ctrl"].append(embed(m, ch["targets"], dims))
+    # add_control registration order: "ctrl_order" (channel indices) may differ from the order in which the
+    # pulses / the coefficient dict are given
+    order = inp.get("ctrl_order") or list(range(len(inp["channels"])))
+    for k in order:
+        ch = inp["channels"][k]
+        if ch.get("ctrl", True):       # False: the channel exists only as a Pulse object given to add_pulse
+            proc.add_control(ops[k], targets=list(ch["targets"]), label=ch["label"])
 
     def arr(x):
         return None if x is None else np.array([float(fr(v)) for v in x], dtype=float)
@@ -503,57 +507,70 @@ def oracle_solver(inp, exp_tot, max_step=None):
 
 
 def oracle_files(inp, impl, got_tot):
-    """save_coeff / read_coeff: the reloaded processor has the same grid, coefficients and evolution"""
+    """save_coeff / read_coeff: a fresh processor (same controls) AND the saving processor itself, after reading
+    the file back, have for every LABEL the saved coefficients, the same grid and the same evolution"""
     fails = []
     d = int(np.prod(inp["dims"]))
+    labels = [ch["label"] for ch in inp["channels"]]
+    want = {l: [float(x) for x in r] for l, r in zip(labels, impl["rows"])}
+    full = [float(x) for x in impl["full"]]
     tmp = tempfile.mkdtemp(prefix="c14-")
     try:
         for inct in (True, False):
-            with warnings.catch_warnings():
-                warnings.simplefilter("ignore")
-                fn = os.path.join(tmp, "coeff_%d.txt" % inct)
-                try:
-                    proc, _ = build(inp)
-                    proc.save_coeff(fn, inctime=inct)
-                    blank = dict(inp, channels=[dict(ch, tlist=None, coeff=None) for ch in inp["channels"]],
-                                 mode="direct")
-                    proc2, _ = build(blank)
-                    proc2.clear_pulses()
-                    ret = proc2.read_coeff(fn, inctime=inct)
-                    if inct:
-                        rt, rc = ret
-                        if callable(rt) or not np.allclose(np.asarray(rt, dtype=float),
-                                                           [float(x) for x in impl["full"]], atol=1e-12, rtol=0):
-                            fails.append(dict(input=inp, observed=repr(rt)[:120],
-                                              expected=[str(x) for x in impl["full"]],
-                                              what="read_coeff(inctime=True) does not return the saved time list"))
+            for target in ("fresh", "same"):
+                with warnings.catch_warnings():
+                    warnings.simplefilter("ignore")
+                    fn = os.path.join(tmp, "coeff_%d_%s.txt" % (inct, target))
+                    tag = "inctime=%s, %s processor" % (inct, target)
+                    try:
+                        proc, _ = build(inp)
+                        proc.save_coeff(fn, inctime=inct)
+                        if target == "fresh":
+                            blank = dict(inp, channels=[dict(ch, tlist=None, coeff=None) for ch in inp["channels"]],
+                                         mode="direct")
+                            proc2, _ = build(blank)
+                            proc2.clear_pulses()
+                        else:
+                            proc2 = proc
+                        ret = proc2.read_coeff(fn, inctime=inct)
+                        if inct:
+                            rt, rc = ret
+                            if callable(rt) or not np.allclose(np.asarray(rt, dtype=float), full, atol=1e-12, rtol=0):
+                                fails.append(dict(input=inp, observed=repr(rt)[:120],
+                                                  expected=[str(x) for x in impl["full"]],
+                                                  what="read_coeff(inctime=True) does not return the saved time list"))
+                                continue
+                        else:
+                            rc = ret
+                            proc2.set_tlist(np.array(full))
+                        ok = sorted(map(str, rc.keys())) == sorted(labels) and all(
+                            np.ndim(rc[l]) == 1 and np.allclose(rc[l], want[l], atol=1e-12, rtol=0) for l in labels)
+                        if not ok:
+                            fails.append(dict(input=inp, observed={str(k): repr(v)[:80] for k, v in rc.items()},
+                                              expected={l: [str(x) for x in r] for l, r in zip(labels, impl["rows"])},
+                                              what="read_coeff(inctime=%s) does not return the saved coefficients"
+                                                   % inct))
                             continue
-                    else:
-                        rc = ret
-                        proc2.set_tlist(np.array([float(x) for x in impl["full"]]))
-                    labels = [ch["label"] for ch in inp["channels"]]
-                    ok = list(rc.keys()) == labels and all(
-                        np.ndim(rc[l]) == 1 and
-                        np.allclose(rc[l], [float(x) for x in r], atol=1e-12, rtol=0)
-                        for l, r in zip(labels, impl["rows"]))
-                    if not ok:
-                        fails.append(dict(input=inp, observed={str(k): repr(v)[:80] for k, v in rc.items()},
-                                          expected={l: [str(x) for x in r] for l, r in zip(labels, impl["rows"])},
-                                          what="read_coeff(inctime=%s) does not return the saved coefficients" % inct))
-                        continue
-                    f2 = proc2.get_full_tlist()
-                    c2 = np.asarray(proc2.get_full_coeffs(), dtype=float)
-                    us = proc2.run_analytically()
-                    tot2 = total_product([np.asarray(u.full()) for u in us], d)
-                    if not (np.allclose(f2, [float(x) for x in impl["full"]], atol=1e-12, rtol=0)
-                            and c2.shape == (len(impl["rows"]), len(impl["full"]))
-                            and float(np.max(np.abs(tot2 - got_tot))) <= 1e-9):
-                        fails.append(dict(input=inp, observed="reloaded processor evolves differently",
-                                          expected="same grid, coefficients and evolution",
-                                          what="save/reload (inctime=%s) changes the evolution" % inct))
-                except Exception as e:
-                    fails.append(dict(input=inp, observed=repr(e)[:200], expected="round trip",
-                                      what="save/reload (inctime=%s) raised on a valid input" % inct))
+                        # the processor after the reload: per-label coefficients, grid, evolution
+                        f2 = proc2.get_full_tlist()
+                        c2 = np.asarray(proc2.get_full_coeffs(), dtype=float)
+                        got = {str(p.label): c2[i] for i, p in enumerate(proc2.pulses)} if c2.ndim == 2 else {}
+                        same = (np.allclose(f2, full, atol=1e-12, rtol=0) and sorted(got) == sorted(labels)
+                                and all(np.allclose(got[l], want[l], atol=1e-12, rtol=0) for l in labels))
+                        if not same:
+                            fails.append(dict(input=inp, observed={k: [float(x) for x in v] for k, v in got.items()},
+                                              expected=want,
+                                              what="after save/reload (%s) a control carries other coefficients" % tag))
+                            continue
+                        us = proc2.run_analytically()
+                        tot2 = total_product([np.asarray(u.full()) for u in us], d)
+                        err = float(np.max(np.abs(tot2 - got_tot)))
+                        if err > 1e-9:
+                            fails.append(dict(input=inp, observed=dict(max_abs_err=err), expected="same evolution",
+                                              what="save/reload (%s) changes the evolution" % tag))
+                    except Exception as e:
+                        fails.append(dict(input=inp, observed=repr(e)[:200], expected="round trip",
+                                          what="save/reload (%s) raised on a valid input" % tag))
     finally:
         shutil.rmtree(tmp, ignore_errors=True)
     return fails
@@ -644,7 +661,11 @@ def gen_valid(rng, late=False, kind="step", nch=None):
     if rng.random() < 0.5:
         for _ in range(rng.choice([1, 1, 2])):
             drift.append(dict(targets=gen_targets(rng, dims), seed=rng.randint(0, 10 ** 6)))
-    return dict(dims=dims, drift=drift, channels=chans, kind=kind,
+    order = list(range(nch))
+    if nch > 1 and rng.random() < 0.65:
+        while order == list(range(nch)):
+            rng.shuffle(order)         # controls registered in another order than the pulses are stored
+    return dict(dims=dims, drift=drift, channels=chans, kind=kind, ctrl_order=order,
                 mode=rng.choice(["direct", "setters"]), state_seed=rng.randint(0, 10 ** 6))
 
 
@@ -733,6 +754,7 @@ def gen_malformed(rng):
         ch["tlist"] = tl
     elif r == 6:
         inp["channels"] = []                                          # empty processor
+        inp["ctrl_order"] = []
     else:
         for c in inp["channels"]:                                     # nobody has a grid
             c["tlist"] = None
@@ -793,6 +815,10 @@ def branch_tags(inp):
     kws = [json.dumps(pulse_label_kw(c), sort_keys=True) for c in chans] if inp.get("mode", "direct") == "direct" else []
     if len(set(kws)) < len(kws):
         tags.add("pulses sharing a label")
+    if inp.get("ctrl_order") and inp["ctrl_order"] != list(range(len(chans))):
+        tags.add("pulse order != add_control order")
+    if [c["label"] for c in chans] != sorted(c["label"] for c in chans):
+        tags.add("pulse order != sorted labels")
     if any(not c.get("ctrl", True) for c in chans):
         tags.add("pulse without add_control")
     if any(len(c["targets"]) > 1 for c in chans):
@@ -1039,12 +1065,12 @@ def _classify(failure):
     if "inctime=False" in what and len(inp["channels"]) == 1:
         return "read-coeff-single-column"
     if any(k in what for k in ("resampled coefficient", "analytic evolution", "solver operator", "solver evolution",
-                               "changes the evolution")):
+                               "changes the evolution", "carries other coefficients")):
         z, changed = _zero_tails(inp)
         if changed:
             try:
                 again = [f for f in oracle_case(z, solver=("solver evolution" in what),
-                                                files=("changes the evolution" in what), states=False)
+                                                files=("changes the evolution" in what or "carries other" in what), states=False)
                          if f["what"] == what]
             except Exception:
                 return None
